@@ -200,7 +200,7 @@ def check(ctx):
     with ctx.section("fe-identity-decoder"):
         try:
             _fe_identity_decoder(ctx)
-        except InterpError as e:
+        except (InterpError, ModelRaised) as e:      # an exception of the interpreted code that no scenario expected is confined to this section
             raise AnalysisError(f"C23/fe-identity-decoder: the decoder uses a construct the evaluator cannot interpret: {e}")
     with ctx.section("s-response"):
         structural(ctx, "response/*", "client/evaluated-histories (bounded)", _check_response_structural, ctx, mod)
@@ -209,7 +209,7 @@ def check(ctx):
     with ctx.section("client-evaluated"):
         try:
             _client_evaluated(ctx)
-        except InterpError as e:
+        except (InterpError, ModelRaised) as e:      # an exception of the interpreted code that no scenario expected is confined to this section
             raise AnalysisError(f"C23/client-evaluated: the client code uses a construct the evaluator cannot interpret: {e}")
 
 
